@@ -198,15 +198,36 @@ def config_strategy(draw):
     return cfg, keys
 
 
+SOFT = ("groups", "median", "quantile", "apply_max")  # unify the codes but keep the key chunked
+MASKED_RED = ("sum", "min", "first", "last", "count", "size", "mean", "max")
+
+
 @st.composite
-def step_strategy(draw, n, after_relayout=False):
+def step_strategy(draw, n, after_relayout=False, chunked=False, has_twin=False):
+    """The next operation.  `chunked` / `has_twin` describe the live object (read from it, used only to steer the draw
+    towards histories that matter: operations while the key is still chunk-wise, copies taken before a re-layout)."""
     names = sorted(ops.OPS) + list(EXTRA)
     forced_mask = None
-    if after_relayout and draw(st.booleans()):
+    if chunked:
+        modes = ["any", "any", "soft", "masked_red", "masked_red", "twin" if has_twin else "make_twin"]
+    elif has_twin:
+        modes = ["any", "any", "masked_red", "twin", "twin", "relayout"]
+    elif after_relayout:
+        modes = ["any", "masked_red"]
+    else:
+        modes = ["any", "any", "relayout"]
+    mode = draw(st.sampled_from(modes))
+    if mode == "masked_red":
         # the shape that matters: a reduction with a slice / positional mask after a re-layout
-        op = draw(st.sampled_from(["sum", "min", "first", "last", "count", "size", "mean", "max"]))
-        forced_mask = draw(st.sampled_from(["slice", "pos"]))
-    elif not after_relayout and draw(st.sampled_from([True, False, False])):
+        op = draw(st.sampled_from(MASKED_RED))
+        forced_mask = draw(st.sampled_from(["slice", "slice", "pos", "bool"] if chunked else ["slice", "pos"]))
+    elif mode == "soft":
+        op = draw(st.sampled_from(SOFT))
+    elif mode == "make_twin":
+        op = "make_twin"
+    elif mode == "twin":
+        op = draw(st.sampled_from(["twin_sum", "twin_sum", "twin_cumsum"]))
+    elif mode == "relayout":
         op = draw(st.sampled_from(sorted(RELAYOUT & set(names)) + ["sum_transform", "groups"]))
     else:
         op = draw(st.sampled_from(names))
@@ -255,12 +276,15 @@ def drive(sub, variant, ctx, n_examples, seed_int, shrink_budget_s):
                 self.codes0 = logical_codes(self.gb).tolist()
                 self.labels0 = labels_from_index(self.gb.result_index)
                 self.buffers = {}
+                self.flags = []
 
             @rule(data_=st.data())
             def step(self, data_):
                 relaid = any(s_["op"] in RELAYOUT or s_["op"].endswith("_transform") for s_ in self.case["steps"])
-                step = data_.draw(step_strategy(self.case["cfg"]["n"], after_relayout=relaid))
+                step = data_.draw(step_strategy(self.case["cfg"]["n"], after_relayout=relaid, chunked=bool(self.gb.key_is_chunked),
+                                                has_twin="twin" in self.buffers))
                 self.case["steps"].append(step)
+                self.flags.append((bool(self.gb.key_is_chunked), "twin" in self.buffers))
                 import time as _t
 
                 ctx.t_case = _t.time()
@@ -321,12 +345,26 @@ def drive(sub, variant, ctx, n_examples, seed_int, shrink_budget_s):
                 if logical_codes(self.gb).tolist() != self.codes0:
                     raise Violation(f"codes-changed-after:{step['op']}", f"logical codes changed; history {hist}")
 
+            def _shape_labels(self):
+                steps, flags, out = self.case["steps"], self.flags, []
+                soft = [i for i, s in enumerate(steps) if s["op"] in SOFT and flags[i][0]]
+                if soft and any(i > soft[0] and flags[i][0] and s["op"] in MASKED_RED and (s.get("mask") or {}).get("kind") == "slice"
+                                and (s["mask"].get("start") or 0) > 0 for i, s in enumerate(steps)):
+                    out.append("shape:codes-unified-in-place-then-interior-slice-while-chunk-wise")
+                tw = [i for i, s in enumerate(steps) if s["op"] == "make_twin" and flags[i][0]]
+                if tw:
+                    out.append("shape:copy-taken-while-chunk-wise")
+                    re = [i for i, s in enumerate(steps) if i > tw[0] and (s["op"] in RELAYOUT or s["op"].endswith("_transform") or s["op"] == "twin_cumsum")]
+                    if re and any(i > re[0] for i, s in enumerate(steps)):
+                        out.append("shape:copy-while-chunk-wise-then-relayout-of-one-then-call")
+                return out
+
             def teardown(self):
                 if self.case is not None and self.case["steps"]:
                     ctx.seen("history", {"cfg": self.case["cfg"], "keys": self.case["keys"], "steps": [
                         {"op": s["op"], "mask": (s.get("mask") or {}).get("kind") if isinstance(s.get("mask"), dict) else None} for s in self.case["steps"]]},
                         nontrivial(self.case), [f"layout:{self.case['cfg']['layout']}", f"steps:{len(self.case['steps'])}"] +
-                        [f"step:{s['op']}" for s in self.case["steps"]])
+                        [f"step:{s['op']}" for s in self.case["steps"]] + self._shape_labels())
                     ctx.evaluations += len(self.case["steps"]) - 1
 
         sett = settings(max_examples=max(1, n_examples), stateful_step_count=12, database=None, deadline=None, derandomize=False,
@@ -356,5 +394,5 @@ def drive(sub, variant, ctx, n_examples, seed_int, shrink_budget_s):
 
 
 SUBS = [
-    Sub("history", check, stateful=drive, variants=("-",), examples=(640, 16000), replicas=(16, 16), cost={"-": 1600}),
+    Sub("history", check, stateful=drive, variants=("-",), examples=(1600, 32000), replicas=(16, 16), cost={"-": 1600}),
 ]
